@@ -513,4 +513,127 @@ theorem twosVal_minimal_big (b0 b1 : UInt8) (rest : Bytes)
         Int.mul_le_mul_of_nonneg_right (by omega) (by omega)
       omega
 
+
+/-! ## asn1Signed / asn1Unsigned bit by bit -/
+
+set_option maxRecDepth 8192
+theorem shiftStep_toNat (a : BitVec 64) (b : UInt8) (h : a.toNat * 256 + b.toNat < 2 ^ 64) :
+    ((a <<< 8) ||| BitVec.ofNat 64 b.toNat).toNat = a.toNat * 256 + b.toNat := by
+  have hb := b.toNat_lt
+  rw [BitVec.toNat_or, BitVec.toNat_shiftLeft, BitVec.toNat_ofNat, Nat.shiftLeft_eq]
+  have hlt : a.toNat * 2 ^ 8 < 2 ^ 64 := by omega
+  have h1 : a.toNat * 2 ^ 8 % 2 ^ 64 = a.toNat * 2 ^ 8 := Nat.mod_eq_of_lt hlt
+  have hlt2 : b.toNat < 2 ^ 64 := by omega
+  have h2 : b.toNat % 2 ^ 64 = b.toNat := Nat.mod_eq_of_lt hlt2
+  rw [h1, h2]
+  have := Nat.shiftLeft_add_eq_or_of_lt hb a.toNat
+  rw [Nat.shiftLeft_eq] at this
+  rw [← this]
+
+theorem foldl_shift_toNat : ∀ (bs : Bytes) (a : BitVec 64),
+    a.toNat * 256 ^ bs.length + natOfBE bs < 2 ^ 64 →
+    (bs.foldl (fun (a : BitVec 64) (b : UInt8) => (a <<< 8) ||| BitVec.ofNat 64 b.toNat) a).toNat
+      = a.toNat * 256 ^ bs.length + natOfBE bs
+  | [], a, _ => by simp [natOfBE, natOfLE]
+  | b :: bs, a, h => by
+    rw [natOfBE_cons, List.length_cons, Nat.pow_succ] at h
+    have hp : 0 < 256 ^ bs.length := Nat.pow_pos (by decide)
+    have e : a.toNat * (256 ^ bs.length * 256) + (b.toNat * 256 ^ bs.length + natOfBE bs)
+        = (a.toNat * 256 + b.toNat) * 256 ^ bs.length + natOfBE bs := by
+      rw [Nat.add_mul, Nat.mul_assoc, Nat.mul_comm 256 (256 ^ bs.length)]; omega
+    rw [e] at h
+    have hstep : a.toNat * 256 + b.toNat < 2 ^ 64 := by
+      have := Nat.le_mul_of_pos_right (a.toNat * 256 + b.toNat) hp
+      omega
+    have hs := shiftStep_toNat a b hstep
+    simp only [List.foldl_cons]
+    rw [foldl_shift_toNat bs _ (by rw [hs]; exact h), hs, natOfBE_cons, List.length_cons, Nat.pow_succ, ← e]
+
+theorem shiftIn_toNat (bs : Bytes) (h : natOfBE bs < 2 ^ 64) : (shiftIn bs).toNat = natOfBE bs := by
+  unfold shiftIn
+  rw [foldl_shift_toNat bs 0#64 (by simpa using h)]
+  simp
+
+/-- sign extension by `<<= s; >>= s` (arithmetic) of an `8L`-bit value -/
+theorem signExtend (x : BitVec 64) (L N : Nat) (hL1 : 1 ≤ L) (hL8 : L ≤ 8) (hx : x.toNat = N) (hN : N < 256 ^ L) :
+    ((x <<< (64 - L * 8)).sshiftRight (64 - L * 8)).toInt
+      = if 128 * 256 ^ (L - 1) ≤ N then (N : Int) - (256 : Int) ^ L else N := by
+  have hcases : L = 1 ∨ L = 2 ∨ L = 3 ∨ L = 4 ∨ L = 5 ∨ L = 6 ∨ L = 7 ∨ L = 8 := by omega
+  rw [BitVec.toInt_sshiftRight, Int.shiftRight_eq_div_pow, BitVec.toInt_eq_toNat_cond, BitVec.toNat_shiftLeft,
+    Nat.shiftLeft_eq, hx]
+  rcases hcases with rfl | rfl | rfl | rfl | rfl | rfl | rfl | rfl <;>
+  · simp only [Nat.reduceMul, Nat.reduceSub, Nat.reducePow] at hN ⊢
+    rw [Nat.mod_eq_of_lt (by omega)]
+    split <;> split <;> omega
+
+
+theorem natOfBE_lt_of_len (bs : Bytes) (k : Nat) (h : bs.length ≤ k) : natOfBE bs < 256 ^ k :=
+  Nat.lt_of_lt_of_le (natOfBE_lt bs) (Nat.pow_le_pow_right (by decide) h)
+
+/-- **asn1Signed, bit by bit = two's-complement value** -/
+theorem asn1Signed_spec (bs : Bytes) (h : bs ≠ []) :
+    asn1Signed bs = if bs.length > 8 then none else some (twosVal bs) := by
+  unfold asn1Signed
+  by_cases hl : bs.length > 8
+  · simp [hl]
+  · simp only [hl, if_false, Option.some.injEq]
+    match bs, h with
+    | b0 :: rest, _ =>
+      have hN := natOfBE_lt (b0 :: rest)
+      have h64 : natOfBE (b0 :: rest) < 2 ^ 64 := by
+        have := natOfBE_lt_of_len (b0 :: rest) 8 (by omega)
+        omega
+      have hx := shiftIn_toNat (b0 :: rest) h64
+      rw [signExtend _ (b0 :: rest).length (natOfBE (b0 :: rest)) (by simp) (by omega) hx hN]
+      show _ = (if (b0 &&& 0x80 == 0x80) = true then (natOfBE (b0 :: rest) : Int) - (256 : Int) ^ (b0 :: rest).length
+        else (natOfBE (b0 :: rest) : Int))
+      rw [neg_bit']
+      have hr := natOfBE_lt rest
+      have hb := b0.toNat_lt
+      have key : 128 * 256 ^ ((b0 :: rest).length - 1) ≤ natOfBE (b0 :: rest) ↔ 128 ≤ b0.toNat := by
+        rw [natOfBE_cons]
+        simp only [List.length_cons, Nat.add_sub_cancel]
+        generalize 256 ^ rest.length = P at *
+        generalize natOfBE rest = r at *
+        constructor
+        · intro h1
+          by_cases h2 : 128 ≤ b0.toNat
+          · exact h2
+          · exfalso
+            have : b0.toNat * P ≤ 127 * P := Nat.mul_le_mul_right P (by omega)
+            omega
+        · intro h2
+          have : 128 * P ≤ b0.toNat * P := Nat.mul_le_mul_right P h2
+          omega
+      by_cases h2 : 128 ≤ b0.toNat
+      · rw [if_pos (key.mpr h2), if_pos (by simpa using h2)]
+      · rw [if_neg (fun h' => h2 (key.mp h')), if_neg (by simpa using h2)]
+
+/-- **asn1Unsigned, bit by bit = big-endian value** -/
+theorem asn1Unsigned_spec (b0 : UInt8) (rest : Bytes) :
+    asn1Unsigned (b0 :: rest) =
+      if (b0 :: rest).length > 9 || ((b0 :: rest).length == 9 && b0 != 0) then none else
+      if b0 &&& 0x80 != 0 then none else some (natOfBE (b0 :: rest)) := by
+  unfold asn1Unsigned
+  simp only
+  split
+  · rfl
+  · rename_i hc
+    split
+    · rfl
+    · simp only [Bool.or_eq_true, decide_eq_true_eq, Bool.and_eq_true, beq_iff_eq, bne_iff_ne, ne_eq,
+        not_or, not_and, Decidable.not_not] at hc
+      obtain ⟨hl, h9⟩ := hc
+      have h64 : natOfBE (b0 :: rest) < 2 ^ 64 := by
+        by_cases hl9 : (b0 :: rest).length = 9
+        · have hz := h9 hl9
+          subst hz
+          rw [natOfBE_cons]
+          have := natOfBE_lt_of_len rest 8 (by simp only [List.length_cons] at hl9; omega)
+          simp only [show (0 : UInt8).toNat = 0 from rfl, Nat.zero_mul, Nat.zero_add]
+          omega
+        · have := natOfBE_lt_of_len (b0 :: rest) 8 (by omega)
+          omega
+      rw [shiftIn_toNat _ h64]
+
 end XC.C23
